@@ -14,6 +14,17 @@ CLAIMED = {
              "tie to the Python code is sampled (generators) except for the regenerated visitor table; CPython/libm primitives modelled.",
         technique="Lean 4 proof by structural induction (M-alg = M-spec) + source-derived table + differential correspondence",
         design="DESIGN.md §4 C01"),
+    "C02": dict(
+        text="Machine-checked proof (Lean 4) that a freshly constructed discrete-time online monitor (mirror of the 25 operation "
+             "classes and of the update visitor) returns rho(phi,w,i) at the i-th update for every formula without future operators, "
+             "that this value depends on the samples fed so far only, and that it equals the offline value at sample i on every "
+             "extension; tied to /repo by the regenerated table of the construction visitor and a differential correspondence run "
+             "(update() stream vs mirror bit-for-bit, vs rho, vs the implementation's own evaluate()), including duplicated text "
+             "and shared sub-specifications.",
+        note="Lean kernel + propext/Classical.choice/Quot.sound; no NaN; the model keeps operator state per syntax-tree position, "
+             "the code per printed node name (one evaluation per name and update): that equivalence is validated by correspondence only.",
+        technique="Lean 4 proof (per-operator stream invariants + structural induction) + source-derived table + differential correspondence",
+        design="DESIGN.md §4 C02"),
 }
 
 NOT_YET = {}
